@@ -107,6 +107,7 @@ type FnCtx struct {
 	decOf     map[string]string
 	fnFacts   map[string]bool
 	replayParams []replayParam
+	replayAssume []string
 	resultVals   []Val
 	exitState    *State
 	atoms        map[string]string
@@ -910,6 +911,17 @@ func (c *FnCtx) run(fr *frame, st0 *State) (*State, []Val) {
 	fn := fr.fn
 	if len(fn.Blocks) == 0 {
 		bail("function %s has no body", fn)
+	}
+	if fr.con != nil {
+		have := map[int]bool{}
+		for _, li := range fr.loops {
+			have[li.ord] = true
+		}
+		for ord := range fr.con.Loops {
+			if !have[ord] {
+				bail("contract of %s names loop %d, the function has %d loops (numbered from 1)", fn, ord, len(fr.loops))
+			}
+		}
 	}
 	incoming := map[*ssa.BasicBlock][]edgeState{}
 	incoming[fn.Blocks[0]] = []edgeState{{nil, st0}}
